@@ -89,7 +89,7 @@ CLAIMED["C10"] = dict(
    technique="contract-based deductive verification (loop invariants + relational per-iteration obligations over an abstract heap) with one bounded stand-in", design_ref="6/C10")
 CLAIMED["C09"] = dict(
    category="other",
-   text="Deductive proof (all inputs) that the counting functions pass exactly the documented options to group_notes and return the number of groups with at least the documented minimum (steps 1, jumps 2, hands 3 over tap / hold head / roll head / lift joined per beat; holds and rolls: {head, TAIL}, joined, the caller's orphan policies), that count_grouped_notes counts the groups of at least `minimum` notes and count_mines the notes of type MINE. group_notes itself (type filter, head/tail joining with its buffering, same-beat modes, which orphan an exception names) is a bounded stand-in: exhaustive comparison with a declarative reading of the statement over every stream of the 2-column grid and every option combination, run in 12 parallel slices - labelled bounded, hence level 'other'.",
+   text="Deductive proof (all inputs) that the counting functions pass exactly the documented options to group_notes and return the number of groups with at least the documented minimum (steps 1, jumps 2, hands 3 over tap / hold head / roll head / lift joined per beat; holds and rolls: {head, TAIL}, joined, the caller's orphan policies), that count_grouped_notes counts the groups of at least `minimum` notes and count_mines the notes of type MINE; and, on the real AST of group_notes, that its type filter passes a note exactly when its type is in include_note_types (all 512 sets of members), that rows are keyed by the exact beat and that JOIN_BY_NOTE_TYPE selects the notes whose type equals the type being joined. group_notes as a whole (the type filter applied to the stream, head/tail joining with its buffering, same-beat modes, which orphan an exception names) is a bounded stand-in: exhaustive comparison with a declarative reading of the statement over every stream of the 2-column grid and every option combination, run in 12 parallel slices - labelled bounded, hence level 'other'.",
    note="Trusted: group_notes as a function of its six arguments at the counters' call sites, sum(cond(x) for x in xs) as the count of x with cond(x), generator laziness ignored, VC generator, z3/cvc5. The buffering state machine of join_heads_to_tails_ was not brought under a loop invariant (DESIGN 6/C09).",
    technique="contract-based deductive verification of the counters (call-site obligations) with a bounded exhaustive stand-in for group_notes", design_ref="6/C09")
 _ENG_NOTE = "Trusted: bisect's local-boundary contract, heapq.merge (as many elements as its inputs, each from some input, in order when every input is sorted), A-FLOAT (floats are reals; the 1e-9 s accuracy clause is not decided), VC generator, z3/cvc5. _retime_events is under contract (initial state, the seven merge inputs under their tags, fold invariant states == fold(step, merged, i), look-up tables as exact projections; lemmas step-keeps-domain and step-time-monotone): SM_inv, which the look-up units start from, is thereby reduced to an induction whose step cases are discharged obligations; the induction itself is argued outside the solver. _coalesce_warps is proved (alternating segments covering exactly the union of the warps). Thorough tier adds the encoder-vs-CPython guard on time_until / beats_until / TaggedEvent.__lt__."
